@@ -934,39 +934,18 @@ def Builder.add (b : Builder) (op : RecOp) : Outcome DErr Builder :=
       .ok { b with st := .prog len out queue }
     else .ok { b with st := .prog len out (insertQueue index op queue) }
 
-structure CState where
-  builders : List Builder
+/-- the collector's state apart from the builders: the register run being read (`last`) and, per
+    successor id not met as a row yet, the rows that named it (`preds`) -/
+structure EState where
   last : Option (Option IdI × DKey)
   preds : List (IdI × List IdI)
-  deriving Repr
-
-def addOp (bs : List Builder) (op : RecOp) : Outcome DErr (List Builder) :=
-  match builderIdx bs op.id with
-  | none => .ok bs
-  | some i =>
-    match bs[i]? with
-    | none => .ok bs
-    | some b =>
-      match b.add op with
-      | .ok b' => .ok (bs.set i b')
-      | .err e => .err e
-      | .panic p => .panic p
+  deriving Repr, DecidableEq
 
 /-- `flush_deletes`: every successor id still waiting for its row becomes a delete op of the run -/
-def flushDeletes (s : CState) : Outcome DErr CState :=
+def flushOps (s : EState) : List RecOp :=
   match s.last with
-  | none => .ok s
-  | some (obj, key) =>
-    let rec go : List (IdI × List IdI) → List Builder → Outcome DErr (List Builder)
-      | [], bs => .ok bs
-      | (id, pred) :: rest, bs =>
-        match addOp bs ⟨id, obj, key, false, 3, .null, pred, false, none⟩ with
-        | .ok bs => go rest bs
-        | o => o
-    match go s.preds s.builders with
-    | .ok bs => .ok { builders := bs, last := none, preds := [] }
-    | .err e => .err e
-    | .panic p => .panic p
+  | none => []
+  | some (obj, key) => s.preds.map (fun p => ⟨p.1, obj, key, false, 3, .null, p.2, false, none⟩)
 
 def pushPred (succ id : IdI) : List (IdI × List IdI) → List (IdI × List IdI)
   | [] => [(succ, [id])]
@@ -975,29 +954,46 @@ def pushPred (succ id : IdI) : List (IdI × List IdI) → List (IdI × List IdI)
 /-- `Op::elemid_or_key` -/
 def OpRow.regKey (r : OpRow) : DKey := if r.insert then .elem r.id else r.key
 
-/-- `process_op` followed by `process_succ` for every successor -/
-def collectRow (s : CState) (r : OpRow) : Outcome DErr CState :=
+/-- `process_op` followed by `process_succ` for every successor: the ops handed to the builders for
+    this row (the deletes of the run that just ended, then the row's op with the predecessors derived
+    for it), and the new state -/
+def emitRow (s : EState) (r : OpRow) : List RecOp × EState :=
   let next := (r.obj, r.regKey)
   let flush := s.last ≠ some next
-  let s1 : Outcome DErr CState := if flush then flushDeletes s else .ok s
-  match s1 with
-  | .err e => .err e
-  | .panic p => .panic p
-  | .ok s1 =>
-    let pred := match s1.preds.find? (fun x => x.1 = r.id) with | some x => x.2 | none => []
-    let preds := s1.preds.filter (fun x => x.1 ≠ r.id)
-    match addOp s1.builders ⟨r.id, r.obj, r.key, r.insert, r.action, r.val, pred, r.expand, r.markName⟩ with
-    | .err e => .err e
-    | .panic p => .panic p
-    | .ok bs =>
-      .ok { builders := bs, last := if flush then some next else s1.last,
-            preds := r.succ.foldl (fun acc sid => pushPred sid r.id acc) preds }
+  let dels := if flush then flushOps s else []
+  -- `self.last.take()`: the successor ids are forgotten only when a run ends
+  let preds0 := if flush ∧ s.last.isSome then [] else s.preds
+  let pred := match preds0.find? (fun x => x.1 = r.id) with | some x => x.2 | none => []
+  let preds := preds0.filter (fun x => x.1 ≠ r.id)
+  (dels ++ [⟨r.id, r.obj, r.key, r.insert, r.action, r.val, pred, r.expand, r.markName⟩],
+   ⟨if flush then some next else s.last, r.succ.foldl (fun acc sid => pushPred sid r.id acc) preds⟩)
 
-def collectRows : List OpRow → CState → Outcome DErr CState
-  | [], s => .ok s
+def emitRows : List OpRow → EState → List RecOp × EState
+  | [], s => ([], s)
   | r :: rest, s =>
-    match collectRow s r with
-    | .ok s => collectRows rest s
+    let (ops, s1) := emitRow s r
+    let (ops', s2) := emitRows rest s1
+    (ops ++ ops', s2)
+
+/-- `ChangeCollector::add`: the op goes to the builder whose range holds its id; an op whose id
+    lies in no change of the document is counted (`unplaced`, since 77e2efb7e) -/
+def placeOp (st : List Builder × Nat) (op : RecOp) : Outcome DErr (List Builder × Nat) :=
+  match builderIdx st.1 op.id with
+  | none => .ok (st.1, st.2 + 1)
+  | some i =>
+    match st.1[i]? with
+    | none => .ok (st.1, st.2 + 1)
+    | some b =>
+      match b.add op with
+      | .ok b' => .ok (st.1.set i b', st.2)
+      | .err e => .err e
+      | .panic p => .panic p
+
+def placeAll : List RecOp → List Builder × Nat → Outcome DErr (List Builder × Nat)
+  | [], st => .ok st
+  | op :: rest, st =>
+    match placeOp st op with
+    | .ok st => placeAll rest st
     | o => o
 
 /-- the ops a builder hands to the change encoder, or `MissingOps` -/
@@ -1095,19 +1091,22 @@ def markOrderOk : List OpRow → List (IdI × Option IdI) → Bool
     hashed and checked against the heads.  `opsFail`: the failure that ended the row iteration. -/
 def rebuild (actors heads : List Bytes) (changes : List ChangeMeta) (rows : List OpRow)
     (opsFail : Option (DErr ⊕ PanicSite)) : Outcome DErr (List DChange) :=
-  match collectRows rows ⟨mkBuilders changes, none, []⟩ with
+  let em := emitRows rows ⟨none, []⟩
+  match placeAll em.1 (mkBuilders changes, 0) with
   | .err e => .err e
   | .panic p => .panic p
-  | .ok s =>
+  | .ok st =>
     match opsFail with
     | some (.inl e) => .err e
     | some (.inr p) => .panic p
     | none =>
-    match flushDeletes s with
+    -- `collect`: the last run's deletes, then (since 77e2efb7e) `OpsOutsideChanges`
+    match placeAll (flushOps em.2) st with
     | .err e => .err e
     | .panic p => .panic p
-    | .ok s =>
-      match finishChanges actors s.builders ((List.range changes.length).zip changes)
+    | .ok st =>
+      if st.2 > 0 then .err .changes else
+      match finishChanges actors st.1 ((List.range changes.length).zip changes)
           (List.replicate actors.length 0) (List.replicate actors.length 0) [] with
       | .err e => .err e
       | .panic p => .panic p
